@@ -421,3 +421,109 @@ func genManyResets(out *bufio.Writer, rng *rand.Rand, count int) int {
 	}
 	return count
 }
+
+// attach adds one more (silent) reporter in the middle of a battle: reporters attached earlier must
+// see exactly what they would have seen without it
+func (c *apiCase) attach() {
+	if c.dead {
+		return
+	}
+	f := guarded(c.deadline, func() { c.sim.AddReporter(&logReporter{}) })
+	c.finish("M", f, "ok", false)
+}
+
+// genExtremes (api): values at the top of the 64-bit range where nothing else in a battle is
+// unusual — spawn offsets of 2^63 and above up to 2^64-1 (any number congruent to a placement
+// denotes that placement), cycle limits of 2^63 and above (an "unlimited" battle that is decided
+// by a death), a further reporter attached while warriors are alive.
+func genExtremes(out *bufio.Writer, rng *rand.Rand, count int) int {
+	top := ^uint64(0)
+	for n := 0; n < count; n++ {
+		b := genBattleSpec(rng, 3)
+		m := uint64(b.cfg.CoreSize)
+		hugeCycles := rng.Intn(3) == 0
+		if hugeCycles {
+			b.cfg.Cycles = gmars.Address([]uint64{1 << 63, 1<<63 + 1, top, top - 1, 1<<63 - 1, 1 << 62}[rng.Intn(6)])
+			// the battle must be decided by deaths: every warrior is a single DAT (whatever is
+			// loaded over it is a DAT too), so all of them die in the first cycle
+			for i := range b.warriors {
+				b.warriors[i] = gmars.WarriorData{Code: []gmars.Instruction{{Op: gmars.DAT}}}
+			}
+		}
+		c := newAPICase(out, fmt.Sprintf("ex%d", n), "api", b.cfg, rng.Intn(2) == 0)
+		for i := range b.warriors {
+			c.add(&b.warriors[i])
+		}
+		for i := range b.warriors {
+			off := b.offsets[i]
+			ln := uint64(len(b.warriors[i].Code))
+			switch rng.Intn(7) {
+			case 0:
+				off = top
+			case 1:
+				off = top - ln + 1
+			case 2:
+				off = top - ln
+			case 3:
+				off = 1<<63 + off
+			case 4:
+				off = 1 << 63
+			case 5:
+				off = top - uint64(rng.Intn(int(2*m)))
+			}
+			c.spawn(i, off)
+		}
+		c.runCycle(false)
+		if rng.Intn(2) == 0 {
+			c.attach()
+		}
+		c.runCycle(false)
+		c.run()
+		if rng.Intn(2) == 0 {
+			c.reset()
+			c.spawn(0, top-uint64(rng.Intn(4)))
+			c.attach()
+			c.runCycle(false)
+			c.run()
+		}
+		for i := range b.warriors {
+			c.getWarrior(i)
+		}
+		c.end()
+	}
+	return count
+}
+
+// genWild (tag wild, tie only): warriors whose fields lie outside [0,M) — no property covers them,
+// but the simulator accepts them and the model says what it does with them
+func genWild(out *bufio.Writer, rng *rand.Rand, count int) int {
+	for n := 0; n < count; n++ {
+		b := genBattleSpec(rng, 2)
+		m := uint64(b.cfg.CoreSize)
+		b.cfg.Cycles = gmars.Address(3 + rng.Intn(20))
+		vals := []uint64{m, m + 1, 2*m - 1, 2 * m, 1 << 32, 1<<32 + 1, 1 << 63, 1<<63 + 3, ^uint64(0), ^uint64(0) - 1, ^uint64(0) - m}
+		for i := range b.warriors {
+			for j := range b.warriors[i].Code {
+				if rng.Intn(3) == 0 {
+					b.warriors[i].Code[j].A = gmars.Address(vals[rng.Intn(len(vals))])
+				}
+				if rng.Intn(3) == 0 {
+					b.warriors[i].Code[j].B = gmars.Address(vals[rng.Intn(len(vals))])
+				}
+			}
+		}
+		c := newAPICase(out, fmt.Sprintf("wf%d", n), "wild", b.cfg, false)
+		for i := range b.warriors {
+			c.add(&b.warriors[i])
+		}
+		for i := range b.warriors {
+			c.spawn(i, b.offsets[i])
+		}
+		for k := 0; k < 6; k++ {
+			c.runCycle(false)
+		}
+		c.run()
+		c.end()
+	}
+	return count
+}
